@@ -463,3 +463,27 @@ Qed.
 
 Lemma cancel_is_invisible : forall st c, hstep st (ECancel c) = (st, []).
 Proof. reflexivity. Qed.
+
+(* stray replies and other calls *)
+Lemma stray_reply_noop : forall st t r, h_out st !! t = None -> hstep st (EResp t r) = (st, []).
+Proof.
+  intros st t r H. cbn [hstep]. rewrite H, src_unknown_tag_dropped. destruct (h_running st); reflexivity.
+Qed.
+
+Lemma reply_touches_only_its_tag : forall st t r t',
+  t' <> t -> h_out (fst (hstep st (EResp t r))) !! t' = h_out st !! t'.
+Proof.
+  intros st t r t' Hne. cbn [hstep]. destruct (h_running st); [|reflexivity].
+  destruct (h_out st !! t) eqn:Hl; cbn [fst h_out with_data].
+  - apply lookup_delete_ne. congruence.
+  - rewrite src_unknown_tag_dropped. reflexivity.
+Qed.
+
+(* once the reader failed or the session context ended, the loop has returned or its exit arm is ready *)
+Lemma never_stuck_after_failure : forall evs,
+  let st := fst (run evs) in
+  (h_shut st || h_ctx st) = true -> h_closed st = true \/ exit_enabled st = true.
+Proof.
+  intros evs st Hf. destruct (run_no_panic evs) as [Hp _]. fold st in Hp.
+  unfold exit_enabled, h_running. rewrite Hp, Hf. destruct (h_closed st); [left | right]; reflexivity.
+Qed.
